@@ -18,16 +18,23 @@ def _k(key):
     return json.dumps(key, sort_keys=True, default=str)
 
 
-def bfs(run, depth, ctx, max_states=None, progress=None):
-    r0 = run([])
-    seen = {_k(r0["key"])}
-    frontier = [([], r0["enabled"])]
-    states, transitions, maxd = 1, 0, 0
+def bfs(run, depth, ctx, max_states=None, progress=None, roots=None):
+    """roots: prefix histories to start from in addition to [] (non-initial
+    start states reach deep corners within a small depth bound)."""
+    seen = set()
+    frontier = []
+    for root in [[]] + [list(r) for r in (roots or [])]:
+        r0 = run(root)
+        k0 = _k(r0["key"])
+        if k0 not in seen:
+            seen.add(k0)
+            frontier.append((root, r0["enabled"]))
+    states, transitions, maxd = len(frontier), 0, 0
     viols = []
     labels = {}
     samples = []
     capped = None
-    per_level = [1]
+    per_level = [len(frontier)]
     for d in range(1, depth + 1):
         tasks = [(h, e) for h, en in frontier for e in en]
         if not tasks:
